@@ -588,18 +588,25 @@ func runTrie(b, refLen int, runs [][2]uint64) (string, uint64, []recChunk) {
 			w := hashtrie.NewHashTrieWriter(chunkSize, b, refLen, fn)
 			leaf := uint64(0)
 			var sp [8]byte
+			keyBuf := bytes.Repeat([]byte{0xEE}, 32)
+			if refLen != 64 {
+				keyBuf = nil
+			}
+			refBuf := make([]byte, 32)
+			args := pipeline.PipeWriteArgs{}
 			for _, r := range runs {
 				binary.LittleEndian.PutUint64(sp[:], r[0])
+				long := r[1] > 100000 // keep the id map small in the long runs
 				for i := uint64(0); i < r[1]; i++ {
-					ref, key := mkRef(leaf, refLen)
-					spans[leaf] = r[0]
+					binary.LittleEndian.PutUint64(refBuf, leaf)
+					if !long {
+						spans[leaf] = r[0]
+					}
 					leaf++
-					if err := w.ChainWrite(&pipeline.PipeWriteArgs{Span: sp[:], Ref: ref, Key: key}); err != nil {
+					args.Span, args.Ref, args.Key = sp[:], refBuf, keyBuf
+					if err := w.ChainWrite(&args); err != nil {
 						class = "err"
 						return
-					}
-					if r[1] > 100000 { // keep the id map small in the long runs
-						delete(spans, leaf-1)
 					}
 				}
 			}
@@ -964,10 +971,10 @@ func main() {
 	dispatch(jcase{Kind: "trie", B: 2, RefLen: 64, Runs: [][2]uint64{{128, 127}, {5, 1}}})
 
 	// ---- generated
-	for i := 0; i < run.N(400, 6000); i++ {
+	for i := 0; i < run.N(260, 6000); i++ {
 		dispatch(genEnc(r))
 	}
-	for i := 0; i < run.N(60, 1500); i++ {
+	for i := 0; i < run.N(40, 1500); i++ {
 		dispatch(jcase{Kind: "strip", Span: randSpan(r)})
 	}
 	for i := 0; i < run.N(20, 300); i++ {
@@ -1019,7 +1026,7 @@ func main() {
 		dispatch(jcase{Kind: "chunk", Span: S, Len: n, Seed: uint64(r.Intn(256))})
 	}
 	// trie at small branching (model evaluated in Coq)
-	for i := 0; i < run.N(120, 1500); i++ {
+	for i := 0; i < run.N(80, 1500); i++ {
 		b := 2 + r.Intn(4)
 		refLen := r.Pick([]int{64, 64, 32})
 		c := uint64(refLen * b)
